@@ -4,3 +4,4 @@ import MoreExec.Props.C16
 #print axioms MoreExec.Apply.C16_failure_from_input
 #print axioms MoreExec.Apply.callClo_build
 #print axioms MoreExec.Apply.wrapped_all_ok
+#print axioms MoreExec.Apply.C16_source_facts
